@@ -295,8 +295,18 @@ func writeEvidence(o *checkOpts, prog *Program, results []*UnitResult, all []*Ob
 		}
 	}
 	sort.Strings(axioms)
+	// kinds of the obligations that are counted (discharged or violated); covers, aggregates, undecided and known findings are reported separately
+	und := map[string]bool{}
+	for _, u := range undecided {
+		if n, ok := u["obligation"].(string); ok {
+			und[n] = true
+		}
+	}
 	kinds := map[string]int{}
 	for _, ob := range all {
+		if ob.IsCover || ob.Kind == "guardall" || und[ob.Name] {
+			continue
+		}
 		kinds[ob.Kind]++
 	}
 	if len(samples) == 0 {
